@@ -1,0 +1,60 @@
+//go:build verif
+
+// Package verifhook holds observation points used by the external verification
+// harness (build tag "verif"). The harness sets the function variables; when
+// they are nil the hooks do nothing.
+package verifhook
+
+import "sync/atomic"
+
+var noLoopFilter atomic.Bool
+
+// SetNoLoopFilter makes the VP8 decoder skip in-loop deblocking.
+func SetNoLoopFilter(v bool) { noLoopFilter.Store(v) }
+
+// NoLoopFilter reports whether the VP8 decoder should skip in-loop deblocking.
+func NoLoopFilter() bool { return noLoopFilter.Load() }
+
+// OnFrameEncoded, when set, receives the encoder's reconstruction planes after
+// each encode pass (the slices alias encoder memory: copy them).
+var OnFrameEncoded func(y, u, v []byte, yStride, uvStride, width, height int)
+
+// FrameEncoded is called by the VP8 encoder after each encode pass.
+func FrameEncoded(y, u, v []byte, yStride, uvStride, width, height int) {
+	if f := OnFrameEncoded; f != nil {
+		f(y, u, v, yStride, uvStride, width, height)
+	}
+}
+
+// OnWorkers, when set, may return a smaller worker count for a call site.
+var OnWorkers func(site string, n int) int
+
+// Workers lets the harness lower the worker count chosen at a call site.
+func Workers(site string, n int) int {
+	if f := OnWorkers; f != nil {
+		if m := f(site, n); m >= 1 && m <= n {
+			return m
+		}
+	}
+	return n
+}
+
+// OnYield, when set, is called at schedule perturbation points.
+var OnYield func(site string, a, b int)
+
+// Yield is a schedule perturbation point.
+func Yield(site string, a, b int) {
+	if f := OnYield; f != nil {
+		f(site, a, b)
+	}
+}
+
+// OnPool, when set, is told about every pool Get.
+var OnPool func(name string, hit bool)
+
+// Pool reports a pool Get and whether it was served from the pool.
+func Pool(name string, hit bool) {
+	if f := OnPool; f != nil {
+		f(name, hit)
+	}
+}
